@@ -105,7 +105,7 @@ def gen_regs(rng, view, mode):
 
 
 def run_histories(ctx, pid, n_defsets, hist_per_set, sizes, dialects=('wows', 'wows126', 'wot', 'wowp'), fault_rate=0.08,
-                  regs_mode=None, strict_too=False):
+                  regs_mode=None, strict_too=False, garbage_w=2):
     focus = FOCUS[pid]
     rng = ctx.rng
     corr_bad = None; spec_bad = 0
@@ -117,7 +117,7 @@ def run_histories(ctx, pid, n_defsets, hist_per_set, sizes, dialects=('wows', 'w
                 dialect = dialects[(k * hist_per_set + hh) % len(dialects)]
                 pl = synth.make_player(dialect, d)
                 view = synth.LibView(pl)
-                h = synth.History(rng, dialect, view, fault_rate=fault_rate).run(rng.choice(sizes))
+                h = synth.History(rng, dialect, view, fault_rate=fault_rate, garbage_w=garbage_w).run(rng.choice(sizes))
                 regs = gen_regs(rng, view, regs_mode) if regs_mode else None
                 st = h.stream()
                 for strict in ([False, True] if strict_too else [False]):
